@@ -3,5 +3,6 @@ CONSTANT Dev = "pow_exponent_truncated"
 INVARIANT FusionSound
 INVARIANT LpNormSound
 INVARIANT MeanSound
+INVARIANT NormLaws
 INVARIANT DigitizeLaws
 CHECK_DEADLOCK FALSE
